@@ -169,3 +169,8 @@ package main
 //@   ensures @rejected-keeps-seed: r0 != nil && old(s) != "random" ==> ref(f.bytes) == old(ref(f.bytes)) && len(f.bytes) == old(len(f.bytes))
 //@   ensures @random-is-8: old(s) == "random" && r0 == nil ==> len(f.bytes) == 8 && f.random
 //@ end
+
+// ---- C03: order assumptions (listed in evidence as unchecked) ----
+//@ order_insensitive main.computeFieldToStruct map-order#0 because every iteration only adds fieldToStruct[origin field] = struct entries keyed by the field; recordFieldToStruct panics if two structs claim one field, so the resulting map does not depend on the visiting order
+//@ order_insensitive main.(*reflectInspector).ignoreReflectedTypes map-order#0 because the pass only adds entries to the ReflectAPIs / ReflectObjectNames sets and is iterated to a fix-point by recordReflection; an order-dependent result was looked for (38 rebuilds, DESIGN section 12) and not found
+//@ order_insensitive ctrlflow.(*trashGenerator).cacheMethods map-order#0 because each iteration fills methodCache[type] once per distinct type from that type's own method set; the cache content is independent of the visiting order
